@@ -48,11 +48,14 @@ def via_inheritance(model, rng):
                 parent_kw[field] = p_items
             if c_items:
                 child_kw[field] = c_items
-        # scalars the child may override: table / sql / primary_key (a decoy of the same kind in the parent); everything else is only read from the parent
-        for f in model.model_fields_set - {"name", "extends", "dimensions", "metrics", "segments", "relationships"}:
+        # every other field the model sets: inherited from the parent, or set by the child -- then the parent holds a decoy of the same kind where one exists (another
+        # table / SQL / key / default grain) or nothing at all (default time dimension, rollups: the child's own declaration must survive the resolution)
+        decoys = {"table": "decoy_table", "sql": "SELECT 1 AS decoy", "primary_key": "decoy_id", "default_grain": "year", "description": "decoy"}
+        for f in sorted(model.model_fields_set - {"name", "extends", "dimensions", "metrics", "segments", "relationships"}):
             v = getattr(model, f)
-            if f in ("table", "sql", "primary_key") and v is not None and rng.random() < 0.5:
-                parent_kw[f] = {"table": "decoy_table", "sql": "SELECT 1 AS decoy", "primary_key": "decoy_id"}[f]
+            if v is not None and rng.random() < 0.5:
+                if f in decoys and rng.random() < 0.7:
+                    parent_kw[f] = decoys[f]
                 child_kw[f] = v
             else:
                 parent_kw[f] = v
